@@ -6,6 +6,7 @@
 #include <valgrind/memcheck.h>
 
 #include "ops.h"
+#include "lib.h"
 
 #if VP_ASAN
 #include <sanitizer/lsan_interface.h>
@@ -230,6 +231,40 @@ static void simple_sizes_threads_case(unsigned rep) {
   case_end(1);
 }
 
+// the small product with operands of very different magnitude (the catalogue draws both from fixed narrow ranges so that the product
+// stays exact for the dispatch comparison of C07; the memory contract has no such restriction): exact-size guarded scratch and
+// operands, every combination of a 27..49-bit operand with a 1..24-bit one, both orders
+static void small_product_magnitudes_case(uint64_t N, unsigned ba, unsigned bb, int swap, int native) {
+  char key[128];
+  snprintf(key, sizeof key, "znx_small_single_product|operand magnitudes 2^%u x 2^%u%s", swap ? bb : ba, swap ? ba : bb, native ? "" : ",generic");
+  if (!case_begin(key, "N=%" PRIu64, N)) return;
+  rng_t* r = crng();
+  const MODULE* mod = get_module(N, FFT64, native);
+  gbuf_t ga, gb, gr, gt;
+  int64_t* a = gb_alloc(&ga, N * 8, 8, 8, 4096);
+  int64_t* b = gb_alloc(&gb, N * 8, 8, 16, 4096);
+  int64_t* res = gb_alloc(&gr, N * 8, 8, 24, 4096);
+  const uint64_t tb = znx_small_single_product_tmp_bytes(mod);
+  uint8_t* tmp = gb_alloc(&gt, tb, 8, 8, 4096);
+  for (uint64_t i = 0; i < N; i++) {
+    a[i] = rng_sbits(r, swap ? bb : ba);
+    b[i] = rng_sbits(r, swap ? ba : bb);
+  }
+  a[0] = (int64_t)(((uint64_t)1 << (swap ? bb : ba)) - 1);  // the class's extreme is present
+  b[N - 1] = -(int64_t)(((uint64_t)1 << (swap ? ba : bb)) - 1);
+  gb_prefill(&gr, 2, 1);
+  gb_prefill(&gt, 3, 2);
+  znx_small_single_product(mod, res, a, b, tmp);
+  long wh;
+  if (gb_check(&gt, &wh)) viol("canary", "znx_small_single_product (N=%" PRIu64 ", operands below 2^%u and 2^%u) wrote outside its %" PRIu64 " bytes of scratch (offset %ld)", N, swap ? bb : ba, swap ? ba : bb, tb, wh);
+  if (gb_check(&ga, &wh) || gb_check(&gb, &wh) || gb_check(&gr, &wh)) viol("canary", "znx_small_single_product (N=%" PRIu64 ") accessed outside an operand (offset %ld)", N, wh);
+  cnt("instrumented_calls", 1);
+  cnt("lopsided_small_products", 1);
+  sample("%" PRIu64 " bytes of scratch, operands 2^%u x 2^%u: guards intact", tb, ba, bb);
+  gb_free(&ga); gb_free(&gb); gb_free(&gr); gb_free(&gt);
+  case_end(1);
+}
+
 void run_C11(void) {
   const int th = G.thorough;
   if (strcmp(G.mode, "leaks") && strcmp(G.mode, "memcheck")) {
@@ -278,4 +313,15 @@ void run_C11(void) {
   // several threads creating, using and destroying their own modules / tables at the same time
   for (unsigned rep = 0; rep < (G.thorough ? 60u : 8u); rep++)
     ops_concurrent_lifecycle_case("C11 objects", LKM_ALL, (rep % 4) == 3 ? DISP_GENERIC : DISP_NATIVE, rep & 1 ? 8 : 4, 120, rep, "concurrent_lifecycle_uses");
+  {
+    static const unsigned BA[] = {27, 30, 35, 40, 45, 49}, BB[] = {1, 5, 10, 16, 20, 24};
+    static const uint64_t SN[] = {16, 256, 1024, 4096, 2, 65536};
+    for (size_t ni = 0; ni < ARRAY_LEN(SN); ni++)
+      for (size_t x = 0; x < ARRAY_LEN(BA); x++)
+        for (size_t y = 0; y < ARRAY_LEN(BB); y++) {
+          if (!G.thorough && SN[ni] > 4096 && ((x + y) & 1)) continue;
+          if (BA[x] + BB[y] + ilog2(SN[ni]) > 60) continue;  // (the product's coefficients must fit in an int64)
+          small_product_magnitudes_case(SN[ni], BA[x], BB[y], (int)((x + y) & 1), (int)((x * 7 + y) % 3 != 0));
+        }
+  }
 }
